@@ -98,6 +98,10 @@ func fieldOwner(f *types.Var) string {
 			for i := 0; i < st.NumFields(); i++ {
 				if st.Field(i) == f {
 					name = n
+					// fields of types outside the root package are qualified by their package name
+					if f.Pkg().Path() != fiberMod {
+						name = f.Pkg().Name() + "." + n
+					}
 				}
 			}
 		}
@@ -369,11 +373,11 @@ func isReturn(in ssa.Instruction) bool { _, ok := in.(*ssa.Return); return ok }
 // condInfo describes `root OP konst` (or bare truthiness of root), possibly negated.
 type condInfo struct {
 	Root  ssa.Value
-	Op    token.Token  // token.ILLEGAL for bare truthiness
-	Const *ssa.Const   // may be nil (comparison of two non-constants: Other set)
-	Other ssa.Value    // second operand when not constant
-	Neg   bool         // overall negation applied
-	Swap  bool         // operands were swapped (const was on the left)
+	Op    token.Token // token.ILLEGAL for bare truthiness
+	Const *ssa.Const  // may be nil (comparison of two non-constants: Other set)
+	Other ssa.Value   // second operand when not constant
+	Neg   bool        // overall negation applied
+	Swap  bool        // operands were swapped (const was on the left)
 }
 
 func decompose(v ssa.Value) condInfo {
